@@ -71,8 +71,15 @@ def r1(ck, F):
         n = nxt.get(k, "")
         if step not in n or not n.startswith("Option::Some{round_date(arg1, "):
             problems.append("next_date is %s (expected round_date(now + %s))" % (n, step))
-        if rounding not in rnd.get(k, ""):
-            problems.append("round_date is %s (expected %s)" % (rnd.get(k), rounding))
+        rtxt = rnd.get(k, "")
+        if "{closure#" in rtxt:       # `.and_then(|d| d.replace_second(0))`: the step sits in a closure of round_date
+            for cl in F.closures_of(br):
+                rtxt += " ; " + " ; ".join(show(q.ret).replace("arg2", "argc") for q in PathEval(cl).run() if q.end == "return")
+        kept = rounding_keeps(rtxt)
+        want_kept = {"Minutely": {"hour", "minute"}, "Hourly": {"hour"}, "Daily": set()}[k]
+        if kept != want_kept:
+            problems.append("round_date is %s: it keeps %s of the clock reading, a %s boundary keeps %s (everything finer must be zero, or a write just after "
+                            "the boundary is still before the stored rollover time)" % (rnd.get(k), sorted(kept) if kept is not None else "an unrecognised part", k.lower(), sorted(want_kept)))
         f = fmt.get(k, "")
         if ("%s')" % last) not in f and not f.rstrip("')").endswith(last):
             problems.append("file-name format is %s (expected to end with %s)" % (f[:70], last))
@@ -87,6 +94,32 @@ def r1(ck, F):
         ck.ok("C16.R1", "Rotation::Never has no next date")
     else:
         ck.bad("C16.R1", "Rotation::Never has no next date", where(bn.raw["sp"]), "next_date(Never) is %s" % nxt.get("Never"))
+
+
+def rounding_keeps(text):
+    """Which of {hour, minute, second, nanosecond} of its argument a rounding expression keeps. Understands
+    replace_time(d, from_hms(h, m, s)) with each component either `hour(d)`-style or 0, Time::MIDNIGHT, and chains of
+    replace_hour/minute/second/nanosecond(.., 0)."""
+    import re as _re
+    m = _re.search(r"from_hms\(([^,()]*(?:\([^()]*\))?), ([^,()]*(?:\([^()]*\))?), ([^,()]*(?:\([^()]*\))?)\)", text)
+    if m and "replace_time(" in text:
+        kept = set()
+        for comp, val in zip(("hour", "minute", "second"), m.groups()):
+            val = val.strip()
+            if val == "%s(arg2)" % comp:
+                kept.add(comp)
+            elif val != "0":
+                return None
+        return kept
+    if "replace_time(" in text and "MIDNIGHT" in text:
+        return set()
+    if "replace_" in text and "replace_time(" not in text:
+        kept = {"hour", "minute", "second", "nanosecond"}
+        for comp in ("hour", "minute", "second", "nanosecond", "millisecond", "microsecond"):
+            if _re.search(r"replace_%s\([^;]*?, 0\)" % comp, text):
+                kept.discard({"millisecond": "nanosecond", "microsecond": "nanosecond"}.get(comp, comp))
+        return kept
+    return None
 
 
 def r2(ck, F):
